@@ -59,3 +59,17 @@ pub fn hex(bs: &[u8]) -> String {
     }
     s
 }
+
+/// Progress reports of generators whose cases run code that must return (hostile inputs): the case being run and a
+/// counter. `main` watches them and ends the run with `HANG <id>` when a case does not come back.
+pub static WATCH_ARMED: std::sync::atomic::AtomicBool = std::sync::atomic::AtomicBool::new(false);
+pub static WATCH_TICK: std::sync::atomic::AtomicU64 = std::sync::atomic::AtomicU64::new(0);
+pub static WATCH_CASE: std::sync::Mutex<String> = std::sync::Mutex::new(String::new());
+pub fn progress(id: &str) {
+    if let Ok(mut g) = WATCH_CASE.lock() {
+        g.clear();
+        g.push_str(id);
+    }
+    WATCH_TICK.fetch_add(1, std::sync::atomic::Ordering::SeqCst);
+    WATCH_ARMED.store(true, std::sync::atomic::Ordering::SeqCst);
+}
